@@ -74,6 +74,189 @@ pub fn ref_main() {
 }
 
 extern "C" {
+    fn atexit(f: extern "C" fn()) -> i32;
+}
+
+static PRIVATE_TMP: Mutex<Option<String>> = Mutex::new(None);
+
+extern "C" fn remove_private_tmp() {
+    if let Ok(g) = PRIVATE_TMP.lock() {
+        if let Some(d) = g.as_ref() {
+            let _ = std::fs::remove_dir_all(d);
+        }
+    }
+}
+
+/// Give this process a temp directory of its own (a fresh, empty sub-directory of the ambient
+/// one, removed again at exit) before it calls into the library: whatever a changed library
+/// persists under `temp_dir()` then stays inside this process's history and can neither leak
+/// into another worker, another run, nor into the machine's /tmp. Not done for the worlds of a
+/// chain (A5SIM_SHARED_TMP): sharing one directory is what makes them a chain.
+pub fn enter_private_tmp() {
+    if std::env::var_os("A5SIM_SHARED_TMP").is_some() {
+        return;
+    }
+    let d = std::env::temp_dir().join(format!("a5sim-{}", std::process::id()));
+    let _ = std::fs::remove_dir_all(&d);
+    if std::fs::create_dir_all(&d).is_ok() {
+        let ds = d.to_string_lossy().to_string();
+        std::env::set_var("TMPDIR", &ds);
+        // the same private place for anything derived from the home / cache directory
+        let _ = std::fs::create_dir_all(d.join("home/.cache"));
+        std::env::set_var("HOME", format!("{}/home", ds));
+        std::env::set_var("XDG_CACHE_HOME", format!("{}/home/.cache", ds));
+        // the shim injects write-path faults only on files under this directory
+        std::env::set_var("A5SIM_FS_ROOT", &ds);
+        *PRIVATE_TMP.lock().unwrap() = Some(ds);
+        unsafe { atexit(remove_private_tmp) };
+    }
+}
+
+/// Empty the private temp directory (the zygote does this after every child, so that each
+/// reference child starts with an empty disk as well as an untouched process image). Returns
+/// the number of entries removed.
+pub fn wipe_private_tmp() -> u64 {
+    let mut n = 0;
+    if let Ok(g) = PRIVATE_TMP.lock() {
+        if let Some(d) = g.as_ref() {
+            if let Ok(rd) = std::fs::read_dir(d) {
+                for e in rd.flatten() {
+                    let p = e.path();
+                    if p.is_dir() {
+                        if p.file_name().map(|f| f == "home").unwrap_or(false) && dir_is_bare_home(&p) {
+                            continue;
+                        }
+                        n += 1;
+                        let _ = std::fs::remove_dir_all(&p);
+                    } else {
+                        n += 1;
+                        let _ = std::fs::remove_file(&p);
+                    }
+                }
+            }
+            let _ = std::fs::create_dir_all(format!("{}/home/.cache", d));
+        }
+    }
+    n
+}
+
+/// `home/` with nothing but an empty `.cache/` in it
+fn dir_is_bare_home(p: &std::path::Path) -> bool {
+    let mut entries = match std::fs::read_dir(p) {
+        Ok(r) => r.flatten().collect::<Vec<_>>(),
+        Err(_) => return false,
+    };
+    if entries.len() != 1 {
+        return entries.is_empty();
+    }
+    let e = entries.pop().unwrap();
+    e.file_name() == ".cache" && std::fs::read_dir(e.path()).map(|mut r| r.next().is_none()).unwrap_or(false)
+}
+
+fn files_under(dir: &std::path::Path, out: &mut Vec<String>, depth: u32) {
+    if depth > 6 {
+        return;
+    }
+    if let Ok(rd) = std::fs::read_dir(dir) {
+        for e in rd.flatten() {
+            let p = e.path();
+            match e.file_type() {
+                Ok(t) if t.is_dir() => files_under(&p, out, depth + 1),
+                Ok(t) if t.is_file() => out.push(p.to_string_lossy().to_string()),
+                _ => {}
+            }
+        }
+    }
+}
+
+/// Regular files under the temp directory this process gives the library (sorted).
+pub fn library_files() -> Vec<String> {
+    let mut v = Vec::new();
+    let root = match std::env::var("A5SIM_FS_ROOT") {
+        Ok(r) if !r.is_empty() => r,
+        _ => return v,
+    };
+    files_under(std::path::Path::new(&root), &mut v, 0);
+    v.sort();
+    v
+}
+
+/// Seeded damage to one file (what a crash at an arbitrary point of a write, or a bad sector,
+/// leaves behind). Returns the fault kind.
+pub fn damage_file(p: &str, rng: &mut crate::rng::Rng) -> &'static str {
+    let len = std::fs::metadata(p).map(|m| m.len()).unwrap_or(0);
+    match rng.below(4) {
+        0 => {
+            // torn write: the file ends somewhere in the middle
+            if len > 1 {
+                if let Ok(fh) = std::fs::OpenOptions::new().write(true).open(p) {
+                    let _ = fh.set_len(1 + rng.below(len - 1));
+                }
+            }
+            "fs_torn_write"
+        }
+        1 => {
+            let _ = std::fs::remove_file(p);
+            "fs_lost_write"
+        }
+        2 => {
+            // the tail never reached the disk: right length, zeros at the end
+            if let Ok(mut bytes) = std::fs::read(p) {
+                let n = bytes.len();
+                let k = (1 + rng.below(n.max(1) as u64)) as usize;
+                for x in bytes[n - k.min(n)..].iter_mut() {
+                    *x = 0;
+                }
+                let _ = std::fs::write(p, bytes);
+            }
+            "fs_zeroed_tail"
+        }
+        _ => {
+            if let Ok(mut bytes) = std::fs::read(p) {
+                if !bytes.is_empty() {
+                    let i = rng.below(bytes.len() as u64) as usize;
+                    bytes[i] ^= 1 << rng.below(8);
+                    let _ = std::fs::write(p, bytes);
+                }
+            }
+            "fs_bit_flip"
+        }
+    }
+}
+
+/// Fault kind `disk_fault` of the history simulator: damage one of the files the library has
+/// left under this process's temp directory. None if there is no such file.
+pub fn damage_private_tmp(seed: u64) -> Option<&'static str> {
+    let files = library_files();
+    if files.is_empty() {
+        return None;
+    }
+    let mut rng = crate::rng::Rng::new(seed);
+    let p = rng.pick(&files).clone();
+    Some(damage_file(&p, &mut rng))
+}
+
+/// Seed of the shim's write-path faults for what follows (0 = none); restarts its call counter.
+pub fn fs_fault_set(seed: u64) -> bool {
+    let f = unsafe { dlsym(std::ptr::null_mut(), b"a5sim_fs_fault_set\0".as_ptr()) };
+    if f.is_null() {
+        return false;
+    }
+    let set: extern "C" fn(u64) = unsafe { std::mem::transmute(f) };
+    set(seed);
+    true
+}
+
+pub fn fs_faults_fired() -> u64 {
+    let f = unsafe { dlsym(std::ptr::null_mut(), b"a5sim_fs_faults_fired\0".as_ptr()) };
+    if f.is_null() {
+        return 0;
+    }
+    let get: extern "C" fn() -> u64 = unsafe { std::mem::transmute(f) };
+    get()
+}
+
+extern "C" {
     fn fork() -> i32;
     fn waitpid(pid: i32, status: *mut i32, options: i32) -> i32;
     fn alarm(seconds: u32) -> u32;
@@ -117,6 +300,7 @@ pub fn zygote_main(cap_secs: u32) {
         } else {
             let mut status: i32 = 0;
             unsafe { waitpid(pid, &mut status, 0) };
+            wipe_private_tmp();
             let exited_ok = (status & 0x7f) == 0 && ((status >> 8) & 0xff) == 0;
             if !exited_ok {
                 let sig = status & 0x7f;
